@@ -297,6 +297,7 @@ BOTTOM = None
 L1 = (10, 10, 80, 20, ("LEFT", "TOP"))
 L2 = (25, 70, 50, 10, ("CENTER", "BOTTOM"))
 L3 = (5, 40, None, None, ("RIGHT", "CENTER"))
+L4 = (10, 10, 80, 20, ("CENTER", "TOP"))
 
 
 def caption_sets(thorough):
@@ -339,7 +340,7 @@ def caption_sets(thorough):
     yield "closing style node with a layout nothing else uses", {
         "langs": {"en-US": [(S, 2 * S, [("L", L1), ("i", True), "slanted", ("L", L3), ("i", False)], L1, None)]}}
     yield "span with its own text-align and a layout", {"langs": {"en-US": [(S, 2 * S, [
-        "plain ", ("L", L1), ("s", True, {"text-align": "center", "italics": True}), "centred",
+        "plain ", ("L", L4), ("s", True, {"text-align": "center", "italics": True}), "centred",
         ("s", False, {"text-align": "center", "italics": True}), ("L", None), " end"], None, None)]}}
     # document styles, one named 'p'
     yield "document styles", {"langs": {"en-US": [(S, 2 * S, ["styled"], None, {"class": "emph"}),
